@@ -88,6 +88,19 @@ def const_size_copy(f, t):
     return False
 
 
+def memory_params(f, path):
+    """the linear-memory parameter: called `memory`, or - whatever its name - the first `&mut [u8]` / `&mut Vec<u8>` parameter
+    of a host function (other byte slices handed to host functions are shared references)"""
+    byname = [l for l, nm in f.names().items() if nm == "memory" and l <= f.argc and re.search(r"\[u8\]|Vec<u8>", f.locals[l])]
+    if byname:
+        return byname
+    if re.search(r"::v[01]::host::[a-z_0-9]+$", path) and any("RuntimeStack" in f.locals[l] for l in range(1, f.argc + 1)):
+        for l in range(1, f.argc + 1):
+            if re.match(r"^&mut (\[u8\]|std::vec::Vec<u8>)$", f.locals[l]):
+                return [l]
+    return []
+
+
 def run(ck):
     ck.explanation = ("Decides, for all host functions of both contract versions, that linear-memory slicing is bounds-checked "
                       "(linear-form implication from a dominating enforced comparison with memory.len()), that proportional "
@@ -118,7 +131,7 @@ def run(ck):
         if len(bs) != 1:
             continue
         f = Fn(bs[0])
-        mem = [l for l, nm in f.names().items() if nm == "memory" and l <= f.argc and re.search(r"\[u8\]|Vec<u8>", f.locals[l])]
+        mem = memory_params(f, p)
         if not mem:
             continue
         sites = rules.slice_sites(f, mem[0])
@@ -146,7 +159,7 @@ def run(ck):
         if len(bs) != 1:
             continue
         f = Fn(bs[0])
-        mem = [l for l, nm in f.names().items() if nm == "memory" and l <= f.argc and re.search(r"\[u8\]|Vec<u8>", f.locals[l])]
+        mem = memory_params(f, p)
         if not mem:
             continue
         for k, (cb, g, exact, d) in enumerate(rules.len_tests_exact(f, mem[0], rules.slice_sites(f, mem[0]))):
@@ -240,7 +253,7 @@ def run(ck):
             continue
         for b in c.get_all(p):
             f = Fn(b)
-            memv = [l for l, nm in f.names().items() if nm == "memory" and l <= f.argc]
+            memv = memory_params(f, f.path)
             for k, (bi, t) in enumerate(f.calls(r"ops::Index::index$|ops::IndexMut::index_mut$")):
                 if memv and ("arg", memv[0]) in f.origins(t["args"][0]):
                     continue
@@ -287,7 +300,7 @@ def run(ck):
             ck.ob("ERR", p, "charge-propagated#%d" % n, rules.enforced_ok(r), r["status"] + ": " + r["detail"], f.loc(bi))
         work = f.calls(WORK)
         # any call that is handed a slice of linear memory of contract-chosen length does work proportional to it
-        memv2 = [l for l, nm2 in f.names().items() if nm2 == "memory" and l <= f.argc]
+        memv2 = memory_params(f, f.path)
         if memv2:
             seen_w = set(b for (b, _) in work)
             for (bi, t) in f.calls():
